@@ -99,20 +99,6 @@ def _enter_next_state(self, next_state):
            and exc.state.successful is False and self._state is old(self._state))
 
 
-@contract('plumpy.workchains.Waiting.enter', assumed=True)
-def wc_waiting_enter(self):
-    """ASSUMED here (proved under C10): registers the done-callback on every awaited future; no state-machine field"""
-    modifies(user_effects)
-    raises_nothing()
-
-
-@contract('plumpy.workchains.Waiting.exit', assumed=True)
-def wc_waiting_exit(self):
-    """ASSUMED here (proved under C10): unregisters the done-callbacks; a WAITING state is never terminal"""
-    modifies(user_effects)
-    raises_nothing()
-
-
 @contract('plumpy.base.state_machine.StateMachine.transition_to', props=['C01'])
 def transition_to(self, new_state, **kwargs):
     """Under C01's quantifier (quiet hooks) and a request that is legal from the current state, the machine ends in the
